@@ -323,8 +323,16 @@ def attribute_stream(ck):
                 cands = ATTR_POOL
             d, args = rng.choice(cands)
             lst.append((d, list(args)))
-            if rng.random() < 0.15:
+            r2 = rng.random()
+            if r2 < 0.12:
                 lst.append(rng.choice([(d, list(args)), rng.choice(cands)]))    # a repeat on the same element
+            elif r2 < 0.24:
+                # a repeat with something else in between: another non-repeatable attribute, a repeatable one, a foreign one
+                between = rng.choice([("deprecated", []), ("oneway", []), ("compress", ["Args"]), ("slicedFormat", ["Args"]), ("allow", ["All"]), ("x::foreign", [])])
+                lst.append(between)
+                if rng.random() < 0.5:
+                    lst.append(rng.choice([("allow", ["Deprecated"]), ("cs::attribute", ["x"])]))
+                lst.append((d, list(args)))
             chosen.append(place + ":" + d)
         els = [(p, r, l) for p, r, l in attribute_sites(prog) if l]
         mlines.append("attrs %d %s" % (len(els), " ".join("%s %d %d %s" % (p, 1 if r else 0, len(l), " ".join("%s %d %s" % (hx(d) if d else "-", len(a), " ".join(hx(x) if x else "-" for x in a)) for d, a in l)) for p, r, l in els)))
